@@ -8,9 +8,10 @@ PtrQuick  == { P("ptr_canon", 130, TRUE), P("ptr_crlf", 133, TRUE), P("ptr_pad10
                P("ptr_pad1024", 1024, TRUE), P("ptr_pad1025", 1025, TRUE),
                P("ptr_plus_byte", 131, FALSE), P("ptr_plus_line", 140, FALSE), P("ptr_plus_64k", 66000, FALSE),
                P("ptr_then_data_1500", 1500, FALSE), P("ptr_upper_oid", 130, FALSE) }
-ContentsQuick    == DataQuick \cup PtrQuick
+MergeQuick == { [name |-> "merged_text", kind |-> "merge", len |-> 9000, wf |-> FALSE] }
+ContentsQuick    == DataQuick \cup PtrQuick \cup MergeQuick
 ContentsThorough == ContentsQuick \cup { D("bin4m", 4194304), D("bin1m1", 1048577), P("ptr_ext", 300, TRUE), P("ptr_legacy", 128, TRUE) }
 DeliveriesAll == {"whole", "split1", "split_mid", "split1023", "split1024", "split1025", "bytes1", "pkt1", "pkt7", "pkt1024", "pktmax"}
-FrontEndsAll  == {"oneshot", "process", "gitadd"}
+FrontEndsAll  == {"oneshot", "process", "gitadd", "mergedriver"}
 WtAll         == {"none", "same", "shorter", "longer", "pointer"}
 =============================================================================
